@@ -9,8 +9,38 @@ use crate::{Case, Ctx};
 use slotted_egraphs::*;
 
 /// final observables of a history, reported in the order of `order` (original term index of each tracked position)
-fn run_final(ops: &[Op], orig_index: &[usize], rho_back: Option<Vec<(u32, u32)>>, rewrite: usize) -> Result<String, String> {
-    let mut eg: EGraph<Main> = EGraph::default();
+fn run_final(ops: &[Op], orig_index: &[usize], rho_back: Option<Vec<(u32, u32)>>, rewrite: usize, ana: bool) -> Result<String, String> {
+    // with or without the min-size analysis attached (the same choice for every run that is compared): the observables are
+    // those of the congruence closure and must not depend on it
+    if ana && rewrite == 0 {
+        run_final_n::<crate::suites::ana::MinSize>(ops, orig_index, rho_back, |_| Ok(()))
+    } else {
+        let rw = move |eg: &mut EGraph<Main>| -> Result<(), String> {
+        if rewrite > 0 {
+            let names: [&[&str]; 5] = [&["add-comm", "mul-comm", "add-assoc"], &["k-def", "h-def"], &["sum-swap", "add-comm", "k-def"], &["var-factor", "add-comm"], &["mul-comm", "factor"]];
+            let rws: Vec<Rewrite<Main>> = if rewrite == 6 {
+                // (metamorphic suites only: a rule over a leaf with two slots of its own, one of them used again elsewhere)
+                vec![Rewrite::new("two-slot", "(k (f2 $a $b) (g1 $a))", "(h (g1 $b))"), Rewrite::new("two-slot-rev", "(k (g2 $b $a) (g1 $a))", "(h (g1 $b))")]
+            } else {
+                names[(rewrite - 1) % 5].iter().filter_map(|n| POOL.iter().find(|r| r.0 == *n)).map(|r| mk_rule(r)).collect()
+            };
+            for _ in 0..2 {
+                if eg.total_number_of_nodes() > 120 {
+                    break;
+                }
+                if let Err(e) = guarded(|| apply_rewrites(eg, &rws)) {
+                    return Err(format!("rewrite {e}"));
+                }
+            }
+        }
+            Ok(())
+        };
+        run_final_n::<()>(ops, orig_index, rho_back, rw)
+    }
+}
+
+fn run_final_n<N: Analysis<Main> + Default>(ops: &[Op], orig_index: &[usize], rho_back: Option<Vec<(u32, u32)>>, rw: impl FnOnce(&mut EGraph<Main, N>) -> Result<(), String>) -> Result<String, String> {
+    let mut eg: EGraph<Main, N> = EGraph::default();
     let mut tracked: Vec<AppliedId> = Vec::new();
     for (k, op) in ops.iter().enumerate() {
         match op {
@@ -31,23 +61,7 @@ fn run_final(ops: &[Op], orig_index: &[usize], rho_back: Option<Vec<(u32, u32)>>
         }
     }
     // optionally a few rewrite iterations with slot-name-independent rules (the same in every run that is compared)
-    if rewrite > 0 {
-        let names: [&[&str]; 5] = [&["add-comm", "mul-comm", "add-assoc"], &["k-def", "h-def"], &["sum-swap", "add-comm", "k-def"], &["var-factor", "add-comm"], &["mul-comm", "factor"]];
-        let rws: Vec<Rewrite<Main>> = if rewrite == 6 {
-            // (metamorphic suites only: a rule over a leaf with two slots of its own, one of them used again elsewhere)
-            vec![Rewrite::new("two-slot", "(k (f2 $a $b) (g1 $a))", "(h (g1 $b))"), Rewrite::new("two-slot-rev", "(k (g2 $b $a) (g1 $a))", "(h (g1 $b))")]
-        } else {
-            names[(rewrite - 1) % 5].iter().filter_map(|n| POOL.iter().find(|r| r.0 == *n)).map(|r| mk_rule(r)).collect()
-        };
-        for _ in 0..2 {
-            if eg.total_number_of_nodes() > 120 {
-                break;
-            }
-            if let Err(e) = guarded(|| apply_rewrites(&mut eg, &rws)) {
-                return Err(format!("rewrite {e}"));
-            }
-        }
-    }
+    rw(&mut eg)?;
     // reorder tracked handles into the original term order
     let n = tracked.len();
     let mut by_orig: Vec<Option<AppliedId>> = vec![None; n];
@@ -177,9 +191,10 @@ fn order_case(rng: &mut Rng, nvariants: usize) -> Case {
     let touching = unions.len() >= 3
         && unions.iter().enumerate().any(|(a, u)| unions.iter().skip(a + 1).any(|w| u.0 == w.0 || u.0 == w.1 || u.1 == w.0 || u.1 == w.1));
     let vs = variants.clone();
+    let with_ana = rng.chance(1, 4);
     let r = in_fresh_thread(move || {
         intern_names();
-        vs.iter().map(|(ops, idx)| run_final(ops, idx, None, 0)).collect::<Vec<_>>()
+        vs.iter().map(|(ops, idx)| run_final(ops, idx, None, 0, with_ana)).collect::<Vec<_>>()
     });
     let mut tags = vec![format!("s:{stream}")];
     match r {
@@ -382,10 +397,11 @@ fn rename_case(rng: &mut Rng) -> Case {
     }
     let rs = runs.clone();
     // a third of the cases continue with two rewrite iterations (arithmetic start terms make the rules fire)
+    let with_ana = rng.chance(1, 5);
     let rewrite = if twoslot { 6 } else if symfactor { 5 } else if slotarith { 4 } else if rng.chance(1, 3) { 1 + rng.below(3) } else { 0 };
     let r = in_fresh_thread(move || {
         intern_names();
-        rs.iter().map(|(_, ops, back)| run_final(ops, &idx, back.clone(), rewrite)).collect::<Vec<_>>()
+        rs.iter().map(|(_, ops, back)| run_final(ops, &idx, back.clone(), rewrite, with_ana)).collect::<Vec<_>>()
     });
     let mut tags = vec![format!("s:{stream}")];
     if rewrite > 0 {
